@@ -577,7 +577,52 @@ def unparse_Await(node: Await) -> unparse_gen_t:
     return f"await {value}"
 
 
-_next_qm = {"": "'", "'": '"', '"': "'''", "'''": '"""', '"""': "'"}
+# The quotes of the strings, by the height of the string.
+# Before python 3.12, a string in an f-string can't contain the quote of the f-string,
+# so the innermost strings use `'`, the f-strings containing them use `"`, and so on.
+# (a triple quote may contain the single one)
+_quote_marks = ["'", '"', "'''", '"""']
+
+
+def _get_string_heights(root: expr) -> dict[int, int]:
+    """
+    Get the heights of the strings (str/bytes constants and f-strings) in an expr.
+    The height of a string is 0 if there is no string in its replacement fields,
+    otherwise it is 1 + the max height of the strings in its replacement fields.
+    Returns a dict: id(node) -> height
+    """
+    heights: dict[int, int] = {}
+    # the max height of the strings in the sub-tree of a node, -1 if there is no string
+    max_heights: dict[int, int] = {}
+    stack: list[tuple[AST, bool]] = [(root, False)]
+    while stack:
+        node, children_done = stack.pop()
+        if isinstance(node, JoinedStr):
+            # the constants in an f-string are not strings by themselves
+            children = [i for i in node.values if isinstance(i, FormattedValue)]
+        elif isinstance(node, FormattedValue):
+            # a format spec is not a string by itself
+            children = [node.value]
+            if node.format_spec is not None:
+                assert isinstance(node.format_spec, JoinedStr)
+                children.extend(
+                    i for i in node.format_spec.values if isinstance(i, FormattedValue)
+                )
+        else:
+            children = list(iter_child_nodes(node))
+        if not children_done:
+            stack.append((node, True))
+            stack.extend((child, False) for child in children)
+            continue
+        max_height = max([max_heights[id(child)] for child in children], default=-1)
+        is_string = isinstance(node, JoinedStr) or (
+            isinstance(node, Constant) and isinstance(node.value, (str, bytes))
+        )
+        if is_string:
+            max_height += 1
+            heights[id(node)] = max_height
+        max_heights[id(node)] = max_height
+    return heights
 
 
 class _Node:
@@ -613,15 +658,21 @@ class _Node:
         Await: unparse_Await,
     }
 
-    def __init__(self, outer_precedence: prec_t, node: expr, outer_str_qm: str):
+    def __init__(
+        self,
+        outer_precedence: prec_t,
+        node: expr,
+        outer_str_qm: str,
+        string_heights: dict[int, int],
+    ):
         self.outer_precedence = outer_precedence
         self.node_precedence = get_node_precedence(node)
         gen_func = self.gen_map.get(type(node), unparse_generic)
 
         if gen_func in [unparse_Constant, unparse_JoinedStr]:
-            # A string in an f-string can't reuse the quotes of the outer f-strings
-            # before python 3.12, there are 4 kinds of quotes to be used
-            self.qm = _next_qm[outer_str_qm]
+            height = string_heights.get(id(node), 0)
+            # (no more kinds of quotes for a higher string, which is valid since python 3.12)
+            self.qm = _quote_marks[height % len(_quote_marks)]
             self.gen = gen_func(node, self.qm)
         elif gen_func is unparse_FormattedValue:
             self.qm = outer_str_qm
@@ -651,7 +702,8 @@ they may have multiple slots with different slot precedence value.
 
 def expr_unparse(node: expr) -> str:
     stack: list[_Node] = []
-    stack.append(_Node(PREC_EXPR_SLOT, node, ""))
+    string_heights = _get_string_heights(node)
+    stack.append(_Node(PREC_EXPR_SLOT, node, "", string_heights))
     converted: str | None = None
     while stack:
         try:
@@ -663,7 +715,9 @@ def expr_unparse(node: expr) -> str:
             if inner_node.node_precedence > inner_node.outer_precedence:
                 converted = f"({converted})"
         else:
-            stack.append(_Node(slot_prec, unconverted_node, stack[-1].qm))
+            stack.append(
+                _Node(slot_prec, unconverted_node, stack[-1].qm, string_heights)
+            )
             converted = None
 
     assert converted is not None
